@@ -24,6 +24,7 @@ func VerifH_selftest_natives() {
 
 	var rw sync.RWMutex
 	var n atomic.Int64
+	var plain int32
 	var once sync.Once
 	var m sync.Map
 	shared := 0
@@ -41,12 +42,14 @@ func VerifH_selftest_natives() {
 			shared++
 			rw.Unlock()
 			n.Add(2)
+			atomic.AddInt32(&plain, 3)
 			m.Store(i, i*i)
 		}()
 	}
 	wg.Wait()
 	Assert(shared == 12, "Once ran once; RWMutex writers excluded each other")
 	Assert(n.Load() == 4, "atomic.Int64 counts")
+	Assert(atomic.LoadInt32(&plain) == 6, "atomic.AddInt32 counts")
 	sum := 0
 	m.Range(func(k, v any) bool { sum += v.(int); return true })
 	Assert(sum == 1, "sync.Map.Range visits every entry")
